@@ -178,6 +178,7 @@ def register(reg):
     ))
 
     register_delays(reg)
+    register_buffers(reg)
 
 
 REPLAY = {}
@@ -322,4 +323,67 @@ def register_delays(reg):
             raises={"FinamTimeError": lambda ctx: z3.BoolVal(True), "FinamNoDataError": lambda ctx: z3.BoolVal(True),
                     "FinamDataError": lambda ctx: z3.BoolVal(True)},
             name="get_data",
+        ))
+
+
+# =================================================================================================
+# buffering adapters: notification fills the buffer, finalize empties it (C10.4, C01.4, C11)
+# =================================================================================================
+def register_buffers(reg):
+    from .base import PREP, SRCVAL, pull_log, RETENTION_FIELDS
+    from .c_output import fin_post_of, files_ok as _files_ok
+
+    from . import c_output as _co
+    reg.add(Contract(
+        f"{T}.TimeCachingAdapter._finalize", self_cls="TimeCachingAdapter", props=["C10.4"], params={},
+        requires=lambda ctx: _files_ok(ctx, ctx.get(ctx.self, "data")),
+        ensures=lambda ctx, r: fin_post_of(ctx), modifies=lambda ctx: [(ctx.self, "data"), (WORLD, "$fexists")],
+        loops={1: dict(invariant=lambda ctx: _co.FIN_INV(ctx))},
+    ))
+
+    # ---- Adapter.finalize for the buffering adapters: no spill file of the buffer survives
+    reg.add(Contract(
+        "finam.sdk.adapter.Adapter.finalize", self_cls="TimeCachingAdapter", props=["C10.4"], params={},
+        requires=lambda ctx: _files_ok(ctx, ctx.get(ctx.self, "data")),
+        ensures=lambda ctx, r: fin_post_of(ctx), modifies=lambda ctx: [(ctx.self, "data"), (WORLD, "$fexists")],
+        name="finalize",
+    ))
+
+    # ---- _source_updated: one entry (time, packed pulled value) is appended
+    for owner, cls in (("finam.adapters.time.TimeCachingAdapter", "TimeCachingAdapter"),
+                       ("finam.adapters.time_integration.TimeIntegrationAdapter", "TimeIntegrationAdapter")):
+        def su_pre(ctx):
+            a = ctx.self
+            d = ctx.get(a, "data")
+            return And(times_set(d), sorted_strict(d), files_ok(ctx, d), names_ok(ctx, a, d), ctx.get(a, "_mem_counter").e >= 0,
+                       Not(is_none(ctx.get(a, "_source"))), Not(ctx.get(a, "_static").e), Not(is_none(ctx.get(a, "_input_info"))),
+                       Implies(d.n > 0, tm(d, d.n - 1) < ctx.time.e))
+
+        def su_post(ctx, r, cls=cls):
+            a = ctx.self
+            d0, d1 = ctx.old.get(a, "data"), ctx.get(a, "data")
+            i = z3.Int(sv.uid("su"))
+            l0 = pull_log(ctx.old)
+            new = d1.at(d0.n)
+            post = And(d1.n == d0.n + 1, z3.ForAll([i], Implies(And(0 <= i, i < d0.n), sv.value_eq(d1.at(i), d0.at(i)))),
+                       Not(is_none(new.items[0])), strip_none(new.items[0]).e == ctx.time.e,
+                       val_in(ctx, new.items[1]) == SRCVAL(a.e, l0.n),
+                       times_set(d1), sorted_strict(d1), files_ok(ctx, d1), names_ok(ctx, a, d1))
+            if cls == "TimeIntegrationAdapter":
+                p0, p1 = ctx.old.get(a, "_prev_time"), ctx.get(a, "_prev_time")
+                post = And(post, Not(is_none(p1)), strip_none(p1).e == If(is_none(p0), ctx.time.e, strip_none(p0).e))
+            return post
+
+        def su_mod(ctx, cls=cls):
+            m = [(None, f) for f in RETENTION_FIELDS] + [(WORLD, "$pull_log"), (WORLD, "$fdata"), (ctx.self, "_mem_counter")]
+            if cls == "TimeIntegrationAdapter":
+                m.append((ctx.self, "_prev_time"))
+            return m
+
+        reg.add(Contract(
+            f"{owner}._source_updated", self_cls=cls, props=["C10.1", "C11.1", "C01.4"], params={"time": Time},
+            requires=su_pre, ensures=su_post, modifies=su_mod,
+            raises={"FinamTimeError": lambda ctx: z3.BoolVal(True), "FinamNoDataError": lambda ctx: z3.BoolVal(True),
+                    "FinamDataError": lambda ctx: z3.BoolVal(True)},
+            name="_source_updated",
         ))
